@@ -253,6 +253,7 @@ def make_probe_data(seed: int, ev: Events, *, is_async: bool = False, tape=None,
     data["ld"] = PSeq(base["ld"], ev)
     data["d1"] = PMap(base["d1"], ev)
     data["o1"] = PObj(base["o1"].a, base["o1"].b, base["o1"]["k"], ev)
+    data["lo"] = [PObj(o.a, o.b, o["k"], ev) for o in base["lo"]]
     data["f1"] = PCall(W.f1, ev, "f1")
     data["f2"] = PCall(W.f2, ev, "f2")
     data["s1"] = PStr(base["s1"], ev)
